@@ -111,6 +111,18 @@ impl<'a> B<'a> {
             let n = self.name("s");
             text.push_str(&format!("    {} {};\n", ty, n));
         }
+        // a counted array inside the struct (its reader gets the allocation guard and the error type that goes with it)
+        if !fixed_size && self.next() % 3 == 0 {
+            self.feats.insert("struct-with-counted-array");
+            let cty = ["u8", "u16", "u32"][self.next() % 3];
+            let el = ["u8", "u16", "u32", "Guid", "PackedGuid", "u8"][self.next() % 6];
+            let (cn, n) = (self.name("scount"), self.name("sva"));
+            text.push_str(&format!("    {} {};\n    {}[{}] {};\n", cty, cn, el, cn, n));
+            if self.next() % 2 == 0 {
+                let t = self.name("stail");
+                text.push_str(&format!("    u32 {};\n", t));
+            }
+        }
         text.push('}');
         self.aux.push(text);
         name
